@@ -15,7 +15,11 @@ EXPLANATION = (
     "The exploration / target-smoothing samplers and the tanh head are compared as normal forms with the documented formulas "
     "(clip domination is part of the formula: the returned value *is* clip(., low, high)); parameters are identified by their position in "
     "the recorded signature, not by name. The factories are resolved through partial / jit / closures and the bound arguments are read by "
-    "signature (positional or keyword): (low, high, 0.5*(high-low), noise[, noise_clip]) from the same action space. "
+    "signature (positional or keyword, unpacked displays): (low, high, 0.5*(high-low), noise[, noise_clip]) from the same action space. "
+    "In addition the sampler is judged *as its factory builds it*: the sampler's body evaluated with the values the factory binds must be the "
+    "documented law in terms of the factory's arguments (space, noise level, noise clip) - so a change of the calling convention between "
+    "the two (who multiplies by half the range) is decided by its effect; a sampler whose parameter list is no longer the recorded one in "
+    "length / order is judged through its factory only. "
     "In every continuous-control loop the env.step argument is traced (reaching definitions) to either the seeded space sampler or the "
     "clipped sampler built from env.action_space. CEM: the proposal formula bounds the standard deviation by half the distance to "
     "either bound and truncates the normal at +-2 (2 * 0.5 <= 1) - a missing cap is reported only with a numeric witness (concrete bounds, "
@@ -28,7 +32,7 @@ EXPLANATION = (
 TRUSTED = ["jnp.clip(x, lo, hi) lies in [lo, hi]; tanh in [-1, 1]; truncated_normal(key, -2, 2) in [-2, 2]; gymnasium Box.low/high/sample", "convexity: alpha*m + (1-alpha)*mean(elites) lies in the box if m and the elites do"]
 RULES = {
     "R1-clip-domination": "sample_actions / sample_target_actions return clip(., action_low, action_high); factories bind (space.low, space.high, 0.5*(high-low), ...) in order; every env.step argument of the continuous loops derives from such a sampler on env.action_space or from action_space.sample()",
-    "R2-noise-law": "eps == noise * scale * normal(key, action.shape); smoothing adds clip(eps, -scale*noise_clip, +scale*noise_clip)",
+    "R2-noise-law": "eps == noise * scale * normal(key, action.shape); smoothing adds clip(eps, -scale*noise_clip, +scale*noise_clip); the sampler with the arguments bound by its factory is that law with scale = 0.5*(space.high - space.low), low/high = space.low/high",
     "R3-tanh-head": "scale_output == tanh(y) * (high-low)/2 + (high+low)/2 (both tanh heads), __call__ applies it to the network output",
     "R4-cem-proposal": "samples == truncated_normal(key, -2, 2) * sqrt(min(min((0.5*(mean-lb))^2, (0.5*(ub-mean))^2), var)) + mean",
     "R5-planning-chain": "PETS: lb/ub stacked from action_space.low/high, mean update convex, initial plan / padding = mid-point, executed action = plan[0] of the optimised mean",
@@ -79,6 +83,107 @@ def _method(ck, repo, cls_qual, name):
 
 def _value_returns(cfg):
     return [n for n in cfg.nodes if n.kind == "stmt" and isinstance(n.ast, ast.Return) and n.ast.value is not None]
+
+
+def _is_loop_header(n) -> bool:
+    return n.kind == "for" or (n.kind == "test" and isinstance(n.ast, ast.While))
+
+
+def _paths_second_round(cfg, src, stops, max_paths: int = 200):
+    """Paths from ``src`` to a node of ``stops`` on which every node is executed at most twice - so a loop that is left from inside its
+    body (`while True: if done: break; ...`) has a path with one completed round.  Same literal bookkeeping for contradictory branch
+    conditions as sympath.enumerate_paths (literals over reassigned names are dropped)."""
+    out, stack = [], [(src, [], frozenset())]
+    while stack:
+        x, path, assume = stack.pop()
+        if x in stops and path:
+            out.append(path + [(x, None)])
+            if len(out) > max_paths:
+                raise AnalysisError("too many paths through the loop (unrecognised form)")
+            continue
+        node = cfg.nodes[x]
+        for s, lab in node.succ:
+            a2 = assume
+            if node.kind == "test" and hasattr(node.ast, "test") and lab in (True, False):
+                v = cfg.eval3(node.ast.test, dict(a2), x)
+                if v is not None and v != lab:
+                    continue
+                lits = cfg._lits(node.ast.test, lab, x)
+                if any((k, not vv) in a2 for k, vv in lits):
+                    continue
+                a2 = a2 | frozenset(lits)
+            a2 = cfg.propagate(s, a2)
+            if sum(1 for p_, _ in path if p_ == s) + (1 if s == x else 0) >= 2:
+                continue
+            stack.append((s, path + [(x, lab)], a2))
+    return out
+
+
+def _completes_a_round(cfg, path) -> bool:
+    """The path runs the body of some loop: it takes the entering edge of a `for`, or comes back to a loop header."""
+    hdrs = [n_ for n_, _ in path if _is_loop_header(cfg.nodes[n_])]
+    return any(cfg.nodes[n_].kind == "for" and lab_ is True for n_, lab_ in path) or len(hdrs) != len(set(hdrs))
+
+
+def _conditionals_as_paths(fn: ast.FunctionDef) -> ast.FunctionDef:
+    """Copy of a function in which a simple statement that contains a conditional expression - as the assigned value or deeper, e.g. as an
+    argument of the call whose result is assigned - is written as the if / else over two copies of the statement, so that the two cases
+    are two paths.  (The expressions read here have no side effects, so evaluating the test first changes no value.)  The original tree
+    is not touched."""
+    from ..expand import clone
+    new = clone(fn)
+    budget = [24]
+
+    def first_ifexp(node):
+        todo = [node]
+        while todo:
+            x = todo.pop(0)
+            if isinstance(x, ast.IfExp):
+                return x
+            if isinstance(x, (ast.Lambda, ast.ListComp, ast.SetComp, ast.DictComp, ast.GeneratorExp)):
+                continue
+            todo += list(ast.iter_child_nodes(x))
+        return None
+
+    def with_replaced(st, target, repl):
+        class R(ast.NodeTransformer):
+            def visit_IfExp(self, n):
+                return repl if n is target else self.generic_visit(n)
+        return R().visit(st)
+
+    def split(st):
+        if not isinstance(st, (ast.Assign, ast.AnnAssign, ast.AugAssign, ast.Return, ast.Expr)) or budget[0] <= 0:
+            return [st]
+        ie = first_ifexp(st)
+        if ie is None:
+            return [st]
+        budget[0] -= 1
+        # the copies are made through a marker so that the very node is replaced in each of them
+        a, b = clone(st), clone(st)
+        ia, ib = first_ifexp(a), first_ifexp(b)
+        a, b = with_replaced(a, ia, ia.body), with_replaced(b, ib, ib.orelse)
+        return [ast.copy_location(ast.If(test=clone(ie.test), body=split(a), orelse=split(b)), st)]
+
+    def block(stmts):
+        out = []
+        for st in stmts:
+            if not isinstance(st, (ast.FunctionDef, ast.AsyncFunctionDef, ast.ClassDef)):
+                for f in ("body", "orelse", "finalbody"):
+                    v = getattr(st, f, None)
+                    if isinstance(v, list) and v and isinstance(v[0], ast.stmt):
+                        setattr(st, f, block(v))
+                for h in getattr(st, "handlers", []) or []:
+                    h.body = block(h.body)
+            out += split(st)
+        return out
+    new.body = block(new.body)
+    ast.fix_missing_locations(new)
+    for parent in ast.walk(new):
+        for child in ast.iter_child_nodes(parent):
+            child._parent = parent
+    if hasattr(fn, "_module"):
+        new._module = fn._module
+    return new
 
 
 def _node_containing(cfg, sub):
@@ -232,6 +337,30 @@ def _formula_per_path(ck, repo, nf, rule, fn, qual, spec, key, roles=None):
     return None
 
 
+UNIT_AXIS_VIEWS = ("[None]", "[jax.numpy.newaxis]", "[numpy.newaxis]", "[None, :]", "[jax.numpy.newaxis, :]", "[numpy.newaxis, :]", "[None, ...]", "[None, Ellipsis]")
+
+
+def _without_leading_unit_axis(nf, p: Poly, depth: int = 0) -> Poly:
+    """The per-step vector behind `atleast_2d(v)`, `atleast_1d(v)`, `v[None]`, `expand_dims(v, 0)`, `reshape(v, (1, -1))`: the same numbers
+    with (at most) a leading axis of length one added - for a row that is then copied along that axis the two are the same row."""
+    a = p.single_atom()
+    m = nf.meta.get(a or "", {})
+    f = (m.get("fn") or "").split(".")[-1]
+    args, kws = m.get("args", []), m.get("kws", {})
+    if depth > 4 or not a or not args:
+        return p
+    inner = None
+    if f in ("atleast_2d", "atleast_1d", "asarray", "array") and len(args) == 1 and not kws:
+        inner = args[0]
+    elif f == "subscript" and any(a.endswith(v) and a[:-len(v)] == args[0].canon() for v in UNIT_AXIS_VIEWS):
+        inner = args[0]
+    elif f == "expand_dims" and ((len(args) == 2 and not kws and args[1].canon() == "0") or (len(args) == 1 and set(kws) == {"axis"} and kws["axis"].canon() == "0")):
+        inner = args[0]
+    elif f == "reshape" and not kws and ((len(args) == 2 and args[1].elems is not None and [e.canon() for e in args[1].elems] == ["1", "-1"]) or (len(args) == 3 and [e.canon() for e in args[1:]] == ["1", "-1"])):
+        inner = args[0]      # reshape(v, (1, -1)) and v.reshape(1, -1)
+    return p if inner is None else _without_leading_unit_axis(nf, inner, depth + 1)
+
+
 def _stacked_rows(nf, pv, sc):
     """('tiled' | 'interleaved', base canon, count canon) when the value is a per-step quantity laid out over a leading axis:
     tiled = row t is a copy of the base; interleaved = flat element-wise repetition cut into rows (rows mix components)."""
@@ -257,7 +386,8 @@ def _stacked_rows(nf, pv, sc):
                     return ("tiled", nf.poly(comp.elt, sc, None).canon(), nf.poly(g.iter.args[0], sc, None).canon())
         return None
     if f == "tile" and len(args) == 2 and args[1].elems is not None and len(args[1].elems) == 2 and args[1].elems[1].canon() == "1":
-        return ("tiled", args[0].canon(), args[1].elems[0].canon())
+        # tile(b, (H, 1)): H copies of the row b, whether b is the per-step vector itself or that vector with a leading axis of length one
+        return ("tiled", _without_leading_unit_axis(nf, args[0]).canon(), args[1].elems[0].canon())
     if f == "repeat" and len(args) == 2 and kws.get("axis") is not None and kws["axis"].canon() == "0":
         bm = nf.meta.get(args[0].single_atom() or "", {})
         at_ = args[0].single_atom() or ""
@@ -622,6 +752,108 @@ SA, STA = "rl_blox.algorithm.ddpg.sample_actions", "rl_blox.algorithm.td3.sample
 MSA, MSTA = "rl_blox.algorithm.ddpg.make_sample_actions", "rl_blox.algorithm.td3.make_sample_target_actions"
 
 
+class _NF(NF):
+    """The normal forms of this property also read the functional spellings of the arithmetic operators (`operator.add(a, b)` is
+    `a + b`): they are mapped to the array functions of the same meaning, which the engine already reduces to polynomial arithmetic."""
+    OPERATOR = {"add": "add", "sub": "subtract", "mul": "multiply", "truediv": "true_divide", "neg": "negative", "pow": "power", "abs": "abs"}
+
+    def libop(self, mi, func):
+        op = super().libop(mi, func)
+        if op is None:
+            dotted = self.repo.resolve_expr(mi, func)
+            if dotted and dotted.startswith("operator.") and dotted[len("operator."):] in self.OPERATOR:
+                return self.OPERATOR[dotted[len("operator."):]]
+        return op
+
+
+def _bound_polys(repo, nf, t, sc, at, site):
+    """(callee, {parameter name: value}) for a resolved partial, the values as normal forms in the scope that builds the partial.  The
+    arguments are bound by the callee's signature (positional prefix and keywords alike); `*pack` is unpacked when the pack is read as a
+    display of known length (`args = (a, b, c); partial(f, *args)`)."""
+    tfn = repo.func(t.qual)
+    tps = positional_params(tfn)
+    vals = []
+    for a in t.prefix:
+        if isinstance(a, ast.Starred):
+            pk = nf.poly(a.value, sc, at)
+            if pk.elems is None or _unread(pk):
+                raise AnalysisError(f"{site}: the unpacked arguments `*{short(a.value, 40)}` are not read as a display of known length (unrecognised form)")
+            vals += list(pk.elems)
+        else:
+            vals.append(nf.poly(a, sc, at))
+    if len(vals) > len(tps):
+        raise AnalysisError(f"{site}: more arguments bound than the signature of {t.qual.rsplit('.', 1)[1]} has (unrecognised form)")
+    bound = dict(zip(tps, vals))
+    for k, v in t.kwargs.items():
+        if k in bound or k not in param_names(tfn):
+            raise AnalysisError(f"{site}: keyword `{k}` of the partial does not bind a free parameter (unrecognised form)")
+        bound[k] = nf.poly(v, sc, at)
+    return tfn, bound
+
+
+SPEC_SA_BUILT = "jnp.clip(POLICY(OBS) + {1} * (0.5 * ({0}.high - {0}.low)) * jax.random.normal(KEY, POLICY(OBS).shape), {0}.low, {0}.high)"
+SPEC_STA_BUILT = ("jnp.clip(POLICY(OBS) + jnp.clip({1} * (0.5 * ({0}.high - {0}.low)) * jax.random.normal(KEY, POLICY(OBS).shape), "
+                  "-((0.5 * ({0}.high - {0}.low)) * {2}), (0.5 * ({0}.high - {0}.low)) * {2}), {0}.low, {0}.high)")
+SAMPLER_ARGS = ("POLICY", "OBS", "KEY")     # what the training routines pass to the built sampler, in this order
+
+
+def _built_sampler(ck, repo, nf, res, fq, target, spec, n_extra, implied=False):
+    """The sampler *as built by its factory*: the body of the sampler evaluated with the values the factory binds to its parameters (by the
+    sampler's own signature) must be the documented law in terms of the factory's arguments - the action space, the noise level and the
+    noise clip.  Who multiplies by half the range - the factory, the sampler, or each a part - does not matter; that it happens exactly once
+    for the noise and once for its clip does."""
+    fn = repo.func(fq)
+    mi = fn._module
+    cfg = nf.cfg_of(fn)
+    fps = param_names(fn)
+    ck.need(len(fps) >= 1 + n_extra, f"{fq}: signature changed (anchor vanished)")
+    if set(fps) & set(SAMPLER_ARGS):
+        raise AnalysisError(f"{fq}: parameter names collide with the role names of this check (unrecognised form)")
+    rets = _value_returns(cfg)
+    if len(rets) != 1:
+        raise AnalysisError(f"{fq}: {len(rets)} return statements (unrecognised form)")
+    t = res.resolve(rets[0].ast.value, mi, res.cfg_of(fn), res.cfg_of(fn).node_of(rets[0].ast).id)
+    if t is None or t.qual != target:
+        return      # which routine the factory wraps is judged by R1 / wraps-sampler
+    sc = Scope(cfg, mi, _env(fn), fq)
+    tfn, bound = _bound_polys(repo, nf, t, sc, rets[0].id, fq)
+    free = []
+    for p_ in param_names(tfn):
+        if p_ in bound:
+            continue
+        d_ = _param_default(tfn, p_)
+        if d_ is None:
+            free.append(p_)
+        elif isinstance(d_, ast.Constant):
+            bound[p_] = nf.poly(d_, Scope(None, tfn._module, {}, target), None)
+        else:
+            raise AnalysisError(f"{fq}: parameter `{p_}` of {target.rsplit('.', 1)[1]} is left at a default that is not a constant (unrecognised form)")
+    if len(free) != len(SAMPLER_ARGS) or tfn.args.vararg or tfn.args.kwarg:
+        raise AnalysisError(f"{fq}: the built sampler leaves {free} open, not (policy, observation, key) (unrecognised form)")
+    if any(_unread(v) for v in bound.values()):
+        raise AnalysisError(f"{fq}: an argument bound to {target.rsplit('.', 1)[1]} is not completely read (unrecognised form)")
+    env = dict(bound)
+    env.update({p_: Poly.atom(r_, {r_}, {r_}) for p_, r_ in zip(free, SAMPLER_ARGS)})
+    try:
+        got = nf.return_poly(target, env)
+    except ValueError as e:
+        got = None
+        why_not = f"{e}: the built sampler is not read as one expression"
+    if got is not None and "φ(" in got.canon():
+        got, why_not = None, f"the value of the built sampler depends on branches of {target.rsplit('.', 1)[1]}"
+    if got is None:
+        if not implied:
+            raise AnalysisError(f"{fq}: {why_not} (unrecognised form)")
+        return      # recorded convention: the sampler's own law (path by path) and the bound arguments are decided separately and imply this
+    wenv = _env(fn)
+    wenv.update({r_: Poly.atom(r_, {r_}, {r_}) for r_ in SAMPLER_ARGS})
+    want = nf.poly(parse_expr(_fill(spec, fn, fq)), Scope(None, mi, wenv, fq), None)
+    ok = got == want
+    wit = "" if ok else _evidence(nf, fq, "the sampler as built by the factory", got, [want], roles={"names": list(fps) + list(SAMPLER_ARGS), "pos": fps[1:1 + n_extra]}, tokens_extra=BLOCKS)
+    ck.ob("R2-noise-law", fq, "built-sampler", ok, f"{target.rsplit('.', 1)[1]} with the factory's arguments = {got.canon()[:170]}",
+          "" if ok else f"differs from the documented law `{want.canon()[:200]}` in terms of the factory's arguments" + (f" ({wit})" if wit else ""), loc(mi, fn))
+
+
 def _bound_by_signature(repo, t):
     """parameter name -> bound expression for a resolved partial (positional prefix and keywords alike)."""
     tfn = repo.func(t.qual)
@@ -653,7 +885,7 @@ def _foreign(p: Poly, params) -> bool:
 
 
 def run(ck, repo: Repo, tier: str):
-    nf = NF(repo, inline_depth=3)
+    nf = _NF(repo, inline_depth=3)
     res = Resolver(repo)
     _plain_guard = ck.guard
 
@@ -664,11 +896,28 @@ def run(ck, repo: Repo, tier: str):
         except (KeyError, IndexError, AttributeError, TypeError, ValueError, RecursionError) as e:
             ck.incomplete.append(f"{getattr(f, '__name__', 'rule group')}: {type(e).__name__}: {str(e)[:120]} (unrecognised form)")
             return None
-    _guard(formula, ck, repo, nf, "R2-noise-law", SA, SPEC_SA, roles={"low": 0, "high": 1, "pos": [2, 3]})
-    _guard(formula, ck, repo, nf, "R2-noise-law", STA, SPEC_STA, roles={"low": 0, "high": 1, "pos": [2, 3, 4]})
+    # A sampler whose parameter list no longer has the recorded length (or order) has another calling convention: what its positions mean is not
+    # known any more, so the obligations that read it position by position are not stated for it.  What the training routines use is the
+    # sampler *as the factory builds it*, and that is decided whatever the division of labour between factory and sampler is.
+    from ..specialise import load_signatures
+    recorded = load_signatures()
+    def _other_convention(q):
+        # another number of parameters, or the recorded parameters in another order (renamed parameters keep their positions)
+        now, then = param_names(repo.func(q)), recorded.get(q)
+        return then is not None and (len(now) != len(then) or (sorted(now) == sorted(then) and list(now) != list(then)))
+    other_convention = {q: _other_convention(q) for q in (SA, STA)}
+    for fq_, tq_, spec_, n_extra_ in ((MSA, SA, SPEC_SA_BUILT, 1), (MSTA, STA, SPEC_STA_BUILT, 2)):
+        _guard(_built_sampler, ck, repo, nf, res, fq_, tq_, spec_, n_extra_, implied=not other_convention[tq_])
+    for q_, spec_, roles_ in ((SA, SPEC_SA, {"low": 0, "high": 1, "pos": [2, 3]}), (STA, SPEC_STA, {"low": 0, "high": 1, "pos": [2, 3, 4]})):
+        if other_convention[q_]:
+            ck.note(f"{q_}: the parameter list ({', '.join(param_names(repo.func(q_)))}) is not the recorded one in length / order: judged through its factory only")
+            continue
+        _guard(formula, ck, repo, nf, "R2-noise-law", q_, spec_, roles=roles_)
     def _section_1():
         # clip domination: the outermost operation of the returned value is clip(., low, high) with the first two parameters as bounds
         for q, spec, roles in ((SA, SPEC_SA, {"low": 0, "high": 1, "pos": [2, 3]}), (STA, SPEC_STA, {"low": 0, "high": 1, "pos": [2, 3, 4]})):
+            if other_convention[q]:
+                continue
             fn = repo.func(q)
             ps = param_names(fn)
             ck.need(len(ps) >= 2, f"{q}: signature changed (anchor vanished)")
@@ -710,15 +959,15 @@ def run(ck, repo: Repo, tier: str):
             if not ok:
                 _other_routine(fq, t.qual, target)
             ck.ob("R1-clip-domination", fq, "wraps-sampler", ok, f"returns {short(rets[0].ast.value, 60)}", "" if ok else f"factory must return a partial of {target.rsplit('.', 1)[1]}, it returns {t.qual}", loc(mi, fn))
-            if not ok:
+            if not ok or other_convention[target]:
                 continue
-            tfn, bound = _bound_by_signature(repo, t)
+            sc = Scope(cfg, mi, _env(fn), fq)
+            tfn, bound = _bound_polys(repo, nf, t, sc, rets[0].id, fq)
             roles = positional_params(tfn)[:3 + n_extra]
             missing = [p for p in roles if p not in bound]
             if len(roles) < 3 + n_extra or missing:
                 raise AnalysisError(f"{fq}: the partial does not bind {missing or 'the leading parameters'} of {target.rsplit('.', 1)[1]} (unrecognised form)")
-            sc = Scope(cfg, mi, _env(fn), fq)
-            got = [nf.poly(bound[p], sc, rets[0].id) for p in roles]
+            got = [bound[p] for p in roles]
             want = [nf.poly(parse_expr(x), Scope(None, mi, _env(fn), fq), None) for x in [f"{space}.low", f"{space}.high", f"0.5 * ({space}.high - {space}.low)"] + extra]
             ok = got == want
             wit = ""
@@ -1072,16 +1321,15 @@ def run(ck, repo: Repo, tier: str):
         ck.need(len(ps) >= 4, f"{q}: signature changed (anchor vanished)")
         CONFIG, STATE, OPT = ps[0], ps[1], ps[2]
         # `x = a if c else b` is read as the two paths it stands for (the initial plan may be chosen by a conditional expression)
-        from ..sem import split_conditional_assignments
         if any(isinstance(x, ast.IfExp) for x in ast.walk(fn)):
-            fn = split_conditional_assignments(fn)
+            fn = _conditionals_as_paths(fn)
             fn._module = mi
             ck._keep = getattr(ck, "_keep", []) + [fn]
         cfgm = nf.cfg_of(fn)
         retn = _value_returns(cfgm)
         if len(retn) != 1:
             raise AnalysisError(f"{q}: {len(retn)} return statements (unrecognised form)")
-        nfm = NF(repo, inline_depth=1, inline_calls=False)
+        nfm = _NF(repo, inline_depth=1, inline_calls=False)
         envm = _env(fn)
         outcomes = {}
         for pth in enumerate_paths(cfgm, cfgm.entry, {retn[0].id}):
@@ -1135,7 +1383,7 @@ def run(ck, repo: Repo, tier: str):
         # must be component 0 of `config.update_fn(...)` - the mean of (cem_update's) (mean, var) - whatever the locals are called; the
         # candidates handed to update_fn must be the result of `config.sample_fn(...)`
         from ..sympath import enumerate_paths as _ep, PathEval as _PE
-        nfo = NF(repo, inline_depth=2)
+        nfo = _NF(repo, inline_depth=2)
         cfg = nfo.cfg_of(fn)
         ps = param_names(fn)
         ck.need(len(ps) >= 5, f"{q}: signature changed (anchor vanished)")
@@ -1147,10 +1395,13 @@ def run(ck, repo: Repo, tier: str):
         kinds, cand_kinds = set(), set()
         shown, shown_c = "", ""
         doc = nfo.poly(parse_expr("{0}.update_fn({0}.sample_fn({2}, {0}.init_var, {3}), {0}.reward_model({4}), {2}, {0}.init_var)[0]".format(*ps)), Scope(None, fn._module, envo, q), None)
-        for pth in _ep(cfg, cfg.entry, {rets[0].id}):
-            if not any(cfg.nodes[n_].kind == "for" and lab_ is True for n_, lab_ in pth):
-                continue      # zero iterations: the initial mean is returned
-            v = _PE(nfo, cfg, fn._module, q, envo).run(pth[:-1]).ev(rets[0].ast.value)
+        # paths with zero iterations return the initial mean and are skipped; a loop that is only left from inside its body
+        # (`while True: if enough: break ...`) completes a round on the paths that execute its header twice
+        with_round = [p_ for p_ in _ep(cfg, cfg.entry, {rets[0].id}) if _completes_a_round(cfg, p_)]
+        if not with_round:
+            with_round = [p_ for p_ in _paths_second_round(cfg, cfg.entry, {rets[0].id}) if _completes_a_round(cfg, p_)]
+        for pth in with_round:
+            v =_PE(nfo, cfg, fn._module, q, envo).run(pth[:-1]).ev(rets[0].ast.value)
             shown = v.canon()[:90]
             r = _row_of_call(nfo, v, f"{CONFIG}.update_fn")
             if r is not None and (r[1] in FIRST_ROW or re.fullmatch(r"\[-?\d+\]", r[1])):
@@ -1269,6 +1520,16 @@ MUTANTS = [
     {"id": 'c10-pets-candidates-unbounded', 'file': 'rl_blox/algorithm/pets.py', 'rule': 'R5', 'find': '    actions = config.sample_fn(mean, var, sampling_key)\n', 'replace': '    actions = mean[jnp.newaxis] + jnp.sqrt(var)[jnp.newaxis] * jax.random.normal(sampling_key, (config.n_samples,) + mean.shape)\n'},
     {"id": 'c10-pets-optimizer-other-space', 'file': 'rl_blox/algorithm/pets.py', 'rule': 'R5', 'find': '    sample_fn, update_fn = _init_mpc_optimizer_cem(\n        env.action_space, plan_horizon, n_samples\n    )', 'replace': '    sample_fn, update_fn = _init_mpc_optimizer_cem(\n        env.observation_space, plan_horizon, n_samples\n    )'},
     {"id": "c10-cem-clip-swapped", "file": _C, "rule": "R4", "find": "    return samples\n\n\ndef cem_update(", "replace": "    return jnp.clip(samples, ub, lb)\n\n\ndef cem_update("},
+    {'id': 'c10-built-sta-noise-unscaled', 'file': 'rl_blox/algorithm/td3.py', 'rule': 'R2', 'edits': [('    action_scale: jnp.ndarray,\n    exploration_noise: float,\n    noise_clip: float,\n    policy: DeterministicTanhPolicy,', '    sigma: jnp.ndarray,\n    max_abs_noise: jnp.ndarray,\n    policy: DeterministicTanhPolicy,'), ('    eps = (\n        exploration_noise * action_scale * jax.random.normal(key, action.shape)\n    )\n    scaled_noise_clip = action_scale * noise_clip\n    clipped_eps = jnp.clip(eps, -scaled_noise_clip, scaled_noise_clip)\n', '    eps = sigma * jax.random.normal(key, action.shape)\n    clipped_eps = jnp.clip(eps, -max_abs_noise, max_abs_noise)\n'), ('            action_space.high,\n            action_scale,\n            exploration_noise,\n            noise_clip,\n        )', '            action_space.high,\n            exploration_noise,\n            action_scale * noise_clip,\n        )')]},
+    {'id': 'c10-built-sta-clip-scaled-twice', 'file': 'rl_blox/algorithm/td3.py', 'rule': 'R2', 'edits': [('    action_scale: jnp.ndarray,\n    exploration_noise: float,\n    noise_clip: float,\n    policy: DeterministicTanhPolicy,', '    sigma: jnp.ndarray,\n    max_abs_noise: jnp.ndarray,\n    policy: DeterministicTanhPolicy,'), ('    eps = (\n        exploration_noise * action_scale * jax.random.normal(key, action.shape)\n    )\n    scaled_noise_clip = action_scale * noise_clip\n    clipped_eps = jnp.clip(eps, -scaled_noise_clip, scaled_noise_clip)\n', '    eps = sigma * jax.random.normal(key, action.shape)\n    clipped_eps = jnp.clip(eps, -max_abs_noise * sigma, max_abs_noise * sigma)\n'), ('            action_space.high,\n            action_scale,\n            exploration_noise,\n            noise_clip,\n        )', '            action_space.high,\n            exploration_noise * action_scale,\n            action_scale * noise_clip,\n        )')]},
+    {'id': 'c10-built-sa-space-full-range', 'file': 'rl_blox/algorithm/ddpg.py', 'rule': 'R2', 'edits': [('def sample_actions(\n    action_low: jnp.ndarray,\n    action_high: jnp.ndarray,\n    action_scale: jnp.ndarray,\n    exploration_noise: float,\n    policy: DeterministicTanhPolicy,', 'def sample_actions(\n    box: gym.spaces.Box,\n    exploration_noise: float,\n    policy: DeterministicTanhPolicy,'), ('    eps = (\n        exploration_noise * action_scale * jax.random.normal(key, action.shape)\n    )\n    exploring_action', '    eps = exploration_noise * (box.high - box.low) * jax.random.normal(key, action.shape)\n    exploring_action'), ('    return jnp.clip(exploring_action, action_low, action_high)', '    return jnp.clip(exploring_action, box.low, box.high)'), ('            sample_actions,\n            action_space.low,\n            action_space.high,\n            action_scale,\n            exploration_noise,\n        )', '            sample_actions,\n            action_space,\n            exploration_noise,\n        )')]},
+    {'id': 'c10-factory-pack-swapped', 'file': 'rl_blox/algorithm/td3.py', 'rule': 'R1', 'find': '            sample_target_actions,\n            action_space.low,\n            action_space.high,\n            action_scale,\n            exploration_noise,\n            noise_clip,\n        )', 'replace': '            sample_target_actions,\n            *(action_space.high, action_space.low, action_scale),\n            exploration_noise,\n            noise_clip,\n        )'},
+    {'id': 'c10-operator-sub-noise', 'file': 'rl_blox/algorithm/td3.py', 'rule': 'R2', 'edits': [('from collections import namedtuple\n', 'import operator\nfrom collections import namedtuple\n'), ('    return jnp.clip(action + clipped_eps, action_low, action_high)', '    return jnp.clip(operator.sub(action, 2.0 * clipped_eps), action_low, action_high)')]},
+    {'id': 'c10-mpc-initial-plan-conditional-doubled', 'file': 'rl_blox/algorithm/pets.py', 'rule': 'R5', 'find': '    if config.init_with_previous_plan:\n        plan = state.prev_plan\n    else:\n        plan = jnp.broadcast_to(config.avg_act, state.prev_plan.shape)\n', 'replace': '    plan = 2.0 * state.prev_plan if config.init_with_previous_plan else jnp.broadcast_to(config.avg_act, state.prev_plan.shape)\n'},
+    {'id': 'c10-opt-loop-break-returns-variance', 'file': 'rl_blox/algorithm/pets.py', 'rule': 'R5', 'edits': [('    for _ in range(config.n_opt_iter):\n        mean, var, best_plan', '    rounds = 0\n    while True:\n        if rounds == config.n_opt_iter:\n            break\n        rounds = rounds + 1\n        mean, var, best_plan'), ('            best_return,\n        )\n\n    return mean\n', '            best_return,\n        )\n\n    return var\n')]},
+    {'id': 'c10-bounds-atleast2d-swapped', 'file': 'rl_blox/algorithm/pets.py', 'rule': 'R5', 'find': '    lower_bound = jnp.vstack([action_space.low for _ in range(plan_horizon)])', 'replace': '    lower_bound = jnp.tile(jnp.atleast_2d(action_space.high), (plan_horizon, 1))'},
+    {'id': 'c10-built-sta-policy-first-clip-unscaled', 'file': 'rl_blox/algorithm/td3.py', 'rule': 'R2', 'edits': [('def sample_target_actions(\n    action_low: jnp.ndarray,', 'def sample_target_actions(\n    policy: DeterministicTanhPolicy,\n    obs: jnp.ndarray,\n    key: jnp.ndarray,\n    action_low: jnp.ndarray,'), ('    noise_clip: float,\n    policy: DeterministicTanhPolicy,\n    obs: jnp.ndarray,\n    key: jnp.ndarray,\n) -> jnp.ndarray:\n    r"""Sample target', '    noise_clip: float,\n) -> jnp.ndarray:\n    r"""Sample target'), ('            sample_target_actions,\n            action_space.low,\n            action_space.high,\n            action_scale,\n            exploration_noise,\n            noise_clip,\n        )', '            sample_target_actions,\n            action_low=action_space.low,\n            action_high=action_space.high,\n            action_scale=action_scale,\n            exploration_noise=exploration_noise,\n            noise_clip=noise_clip,\n        )'), ('    scaled_noise_clip = action_scale * noise_clip\n', '    scaled_noise_clip = noise_clip\n')]},
+    {'id': 'c10-mpc-initial-plan-conditional-argument-doubled', 'file': 'rl_blox/algorithm/pets.py', 'rule': 'R5', 'find': '    if config.init_with_previous_plan:\n        plan = state.prev_plan\n    else:\n        plan = jnp.broadcast_to(config.avg_act, state.prev_plan.shape)\n\n    plan = optimize_fn(state.dynamics_model, plan, opt_key, obs)\n', 'replace': '    plan = optimize_fn(\n        state.dynamics_model,\n        state.prev_plan if config.init_with_previous_plan else 2.0 * jnp.broadcast_to(config.avg_act, state.prev_plan.shape),\n        opt_key,\n        obs,\n    )\n'},
 ]
 BENIGN = [
     {"id": "c10-b-bounds-tile", "file": "rl_blox/algorithm/pets.py", "find": "    lower_bound = jnp.vstack([action_space.low for _ in range(plan_horizon)])", "replace": "    lower_bound = jnp.tile(action_space.low, (plan_horizon, 1))"},
@@ -1307,4 +1568,16 @@ BENIGN = [
     {"id": 'c10-b-cem-params-renamed', 'file': 'rl_blox/blox/cross_entropy_method.py', 'edits': [('def cem_sample(\n    mean: jnp.ndarray,\n    var: jnp.ndarray,', 'def cem_sample(\n    mu: jnp.ndarray,\n    sigma2: jnp.ndarray,'), ('    chex.assert_equal_shape((mean, var))\n    chex.assert_equal_shape((mean, lb))\n    chex.assert_equal_shape((mean, ub))\n\n    lb_dist = mean - lb\n    ub_dist = ub - mean\n    constrained_var = jnp.minimum(\n        jnp.minimum((0.5 * lb_dist) ** 2, (0.5 * ub_dist) ** 2),\n        var,\n    )\n    samples = (\n        jax.random.truncated_normal(\n            step_key, -2.0, 2.0, shape=(n_population,) + mean.shape\n        )\n        * jnp.sqrt(constrained_var)[jnp.newaxis]\n        + mean[jnp.newaxis]\n    )', '    chex.assert_equal_shape((mu, sigma2))\n    chex.assert_equal_shape((mu, lb))\n    chex.assert_equal_shape((mu, ub))\n\n    lb_dist = mu - lb\n    ub_dist = ub - mu\n    constrained_var = jnp.minimum(\n        jnp.minimum((0.5 * lb_dist) ** 2, (0.5 * ub_dist) ** 2),\n        sigma2,\n    )\n    samples = (\n        jax.random.truncated_normal(\n            step_key, -2.0, 2.0, shape=(n_population,) + mu.shape\n        )\n        * jnp.sqrt(constrained_var)[jnp.newaxis]\n        + mu[jnp.newaxis]\n    )')]},
     {"id": 'c10-b-cem-update-params-renamed', 'file': 'rl_blox/blox/cross_entropy_method.py', 'edits': [('    fitness: jnp.ndarray,\n    mean: jnp.ndarray,\n    var: jnp.ndarray,\n    n_elite: int,\n    alpha: float,\n) -> tuple[jnp.ndarray, jnp.ndarray]:', '    fitness: jnp.ndarray,\n    old_mean: jnp.ndarray,\n    old_var: jnp.ndarray,\n    n_elite: int,\n    alpha: float,\n) -> tuple[jnp.ndarray, jnp.ndarray]:'), ('    mean = alpha * mean + (1.0 - alpha) * jnp.mean(elites, axis=0)\n    var = alpha * var + (1.0 - alpha) * jnp.var(elites, axis=0)', '    mean = alpha * old_mean + (1.0 - alpha) * jnp.mean(elites, axis=0)\n    var = alpha * old_var + (1.0 - alpha) * jnp.var(elites, axis=0)')]},
     {"id": 'c10-b-init-cem-param-renamed', 'file': 'rl_blox/algorithm/pets.py', 'edits': [('def _init_mpc_optimizer_cem(\n    action_space: gym.spaces.Box,', 'def _init_mpc_optimizer_cem(\n    box: gym.spaces.Box,'), ('    lower_bound = jnp.vstack([action_space.low for _ in range(plan_horizon)])\n    upper_bound = jnp.vstack([action_space.high for _ in range(plan_horizon)])', '    lower_bound = jnp.vstack([box.low for _ in range(plan_horizon)])\n    upper_bound = jnp.vstack([box.high for _ in range(plan_horizon)])')]},
+    {'id': 'c10-b-built-sta-absolute-units', 'file': 'rl_blox/algorithm/td3.py', 'edits': [('    action_scale: jnp.ndarray,\n    exploration_noise: float,\n    noise_clip: float,\n    policy: DeterministicTanhPolicy,', '    sigma: jnp.ndarray,\n    max_abs_noise: jnp.ndarray,\n    policy: DeterministicTanhPolicy,'), ('    eps = (\n        exploration_noise * action_scale * jax.random.normal(key, action.shape)\n    )\n    scaled_noise_clip = action_scale * noise_clip\n    clipped_eps = jnp.clip(eps, -scaled_noise_clip, scaled_noise_clip)\n', '    eps = sigma * jax.random.normal(key, action.shape)\n    clipped_eps = jnp.clip(eps, -max_abs_noise, max_abs_noise)\n'), ('            action_space.high,\n            action_scale,\n            exploration_noise,\n            noise_clip,\n        )', '            action_space.high,\n            exploration_noise * action_scale,\n            action_scale * noise_clip,\n        )')]},
+    {'id': 'c10-b-built-sa-takes-space', 'file': 'rl_blox/algorithm/ddpg.py', 'edits': [('def sample_actions(\n    action_low: jnp.ndarray,\n    action_high: jnp.ndarray,\n    action_scale: jnp.ndarray,\n    exploration_noise: float,\n    policy: DeterministicTanhPolicy,', 'def sample_actions(\n    box: gym.spaces.Box,\n    exploration_noise: float,\n    policy: DeterministicTanhPolicy,'), ('    eps = (\n        exploration_noise * action_scale * jax.random.normal(key, action.shape)\n    )\n    exploring_action', '    eps = exploration_noise * ((box.high - box.low) / 2) * jax.random.normal(key, action.shape)\n    exploring_action'), ('    return jnp.clip(exploring_action, action_low, action_high)', '    return jnp.clip(exploring_action, box.low, box.high)'), ('            sample_actions,\n            action_space.low,\n            action_space.high,\n            action_scale,\n            exploration_noise,\n        )', '            sample_actions,\n            action_space,\n            exploration_noise,\n        )')]},
+    {'id': 'c10-b-built-sta-keywords-reordered', 'file': 'rl_blox/algorithm/td3.py', 'find': '            sample_target_actions,\n            action_space.low,\n            action_space.high,\n            action_scale,\n            exploration_noise,\n            noise_clip,\n        )', 'replace': '            sample_target_actions,\n            noise_clip=noise_clip,\n            exploration_noise=exploration_noise,\n            action_scale=action_scale,\n            action_high=action_space.high,\n            action_low=action_space.low,\n        )'},
+    {'id': 'c10-b-factory-pack', 'file': 'rl_blox/algorithm/ddpg.py', 'find': '    return nnx.jit(\n        partial(\n            sample_actions,\n            action_space.low,\n            action_space.high,\n            action_scale,\n            exploration_noise,\n        )\n    )', 'replace': '    fixed = [action_space.low, action_space.high, action_scale]\n    return nnx.jit(partial(sample_actions, *fixed, exploration_noise))'},
+    {'id': 'c10-b-operator-add', 'file': 'rl_blox/algorithm/ddpg.py', 'edits': [('from collections import namedtuple\n', 'from collections import namedtuple\nfrom operator import add, mul\n'), ('    exploring_action = action + eps\n', '    exploring_action = add(eps, mul(1.0, action))\n')]},
+    {'id': 'c10-b-mpc-initial-plan-conditional', 'file': 'rl_blox/algorithm/pets.py', 'find': '    if config.init_with_previous_plan:\n        plan = state.prev_plan\n    else:\n        plan = jnp.broadcast_to(config.avg_act, state.prev_plan.shape)\n\n    plan = optimize_fn(state.dynamics_model, plan, opt_key, obs)\n', 'replace': '    start = jnp.broadcast_to(config.avg_act, state.prev_plan.shape) if not config.init_with_previous_plan else state.prev_plan\n    plan = optimize_fn(state.dynamics_model, start, opt_key, obs)\n'},
+    {'id': 'c10-b-opt-loop-break', 'file': 'rl_blox/algorithm/pets.py', 'find': '    for _ in range(config.n_opt_iter):\n        mean, var, best_plan', 'replace': '    rounds = 0\n    while True:\n        if rounds == config.n_opt_iter:\n            break\n        rounds = rounds + 1\n        mean, var, best_plan'},
+    {'id': 'c10-b-opt-loop-while-counter', 'file': 'rl_blox/algorithm/pets.py', 'find': '    for _ in range(config.n_opt_iter):\n        mean, var, best_plan', 'replace': '    left = config.n_opt_iter\n    while left > 0:\n        left -= 1\n        mean, var, best_plan'},
+    {'id': 'c10-b-bounds-expand-dims-tile', 'file': 'rl_blox/algorithm/pets.py', 'find': '    upper_bound = jnp.vstack([action_space.high for _ in range(plan_horizon)])', 'replace': '    upper_bound = jnp.tile(jnp.expand_dims(action_space.high, 0), (plan_horizon, 1))'},
+    {'id': 'c10-b-bounds-atleast2d-tile', 'file': 'rl_blox/algorithm/pets.py', 'find': '    lower_bound = jnp.vstack([action_space.low for _ in range(plan_horizon)])', 'replace': '    lower_bound = jnp.tile(jnp.atleast_2d(action_space.low), (plan_horizon, 1))'},
+    {'id': 'c10-b-built-sta-policy-first', 'file': 'rl_blox/algorithm/td3.py', 'edits': [('def sample_target_actions(\n    action_low: jnp.ndarray,', 'def sample_target_actions(\n    policy: DeterministicTanhPolicy,\n    obs: jnp.ndarray,\n    key: jnp.ndarray,\n    action_low: jnp.ndarray,'), ('    noise_clip: float,\n    policy: DeterministicTanhPolicy,\n    obs: jnp.ndarray,\n    key: jnp.ndarray,\n) -> jnp.ndarray:\n    r"""Sample target', '    noise_clip: float,\n) -> jnp.ndarray:\n    r"""Sample target'), ('            sample_target_actions,\n            action_space.low,\n            action_space.high,\n            action_scale,\n            exploration_noise,\n            noise_clip,\n        )', '            sample_target_actions,\n            action_low=action_space.low,\n            action_high=action_space.high,\n            action_scale=action_scale,\n            exploration_noise=exploration_noise,\n            noise_clip=noise_clip,\n        )')]},
+    {'id': 'c10-b-mpc-initial-plan-conditional-argument', 'file': 'rl_blox/algorithm/pets.py', 'find': '    if config.init_with_previous_plan:\n        plan = state.prev_plan\n    else:\n        plan = jnp.broadcast_to(config.avg_act, state.prev_plan.shape)\n\n    plan = optimize_fn(state.dynamics_model, plan, opt_key, obs)\n', 'replace': '    plan = optimize_fn(\n        state.dynamics_model,\n        state.prev_plan if config.init_with_previous_plan else jnp.broadcast_to(config.avg_act, state.prev_plan.shape),\n        opt_key,\n        obs,\n    )\n'},
 ]
